@@ -188,12 +188,34 @@ func GenProg(r *core.Rand, n int) *Prog { return GenProgFiles(r, n, false) }
 
 // GenProgFiles is GenProg; with twoFiles the functions alternate between main.go and part2.go (frames with
 // arguments in several source files of one snapshot).
-func GenProgFiles(r *core.Rand, n int, twoFiles bool) *Prog {
+func GenProgFiles(r *core.Rand, n int, twoFiles bool) *Prog { return GenProgOpt(r, n, twoFiles, false) }
+
+// genSmallParam makes a one-word parameter whose value fits in 32 bits (but not always in 31).
+func genSmallParam(r *core.Rand) ProgParam {
+	switch r.Intn(6) {
+	case 0:
+		b := r.Bool()
+		return ProgParam{Kind: "bool", Lit: strconv.FormatBool(b), Words: 1, Want: strconv.FormatBool(b)}
+	case 1:
+		v := strconv.Itoa([]int{0, 1, 255, 200}[r.Intn(4)])
+		return ProgParam{Kind: "uint8", Lit: v, Words: 1, Want: v}
+	case 2:
+		v := strconv.FormatUint([]uint64{0, 1 << 31, 1<<32 - 1, 65536}[r.Intn(4)], 10)
+		return ProgParam{Kind: []string{"uint32", "uint", "uint64", "uintptr"}[r.Intn(4)], Lit: v, Words: 1, Want: v}
+	default:
+		v := strconv.FormatInt([]int64{1 << 31, 1<<32 - 1, 1<<31 - 1, 1<<31 + 12345, 0, 1, 3000000000}[r.Intn(7)], 10)
+		return ProgParam{Kind: []string{"int", "int64", "int"}[r.Intn(3)], Lit: v, Words: 1, Want: v}
+	}
+}
+
+// GenProgOpt is GenProgFiles; with small no word of the traceback exceeds 32 bits: plain functions only (no
+// receivers, no pointers, strings, slices or floats), every value in [0, 2^32).
+func GenProgOpt(r *core.Rand, n int, twoFiles, small bool) *Prog {
 	p := &Prog{}
 	nmeth := 0
 	for i := 0; i < n; i++ {
 		f := ProgFunc{Name: fmt.Sprintf("f%d", i)}
-		if r.Chance(1, 3) {
+		if !small && r.Chance(1, 3) {
 			// methods on two receiver types share names (M0 on *T and M0 on *U): same method name, different
 			// declaration, in one file
 			f.Method = true
@@ -209,7 +231,10 @@ func GenProgFiles(r *core.Rand, n int, twoFiles bool) *Prog {
 		np := 1 + r.Intn(6)
 		for k := 0; k < np; k++ {
 			pp := GenParam(r)
-			if n := len(f.Params); n > 0 && r.Chance(1, 4) {
+			if small {
+				pp = genSmallParam(r)
+			}
+			if n := len(f.Params); !small && n > 0 && r.Chance(1, 4) {
 				// same type as the previous parameter (a fresh value): exercises "a, b T" declarations
 				for tries := 0; tries < 200 && pp.Kind != f.Params[n-1].Kind; tries++ {
 					pp = GenParam(r)
@@ -223,10 +248,13 @@ func GenProgFiles(r *core.Rand, n int, twoFiles bool) *Prog {
 		}
 		if len(f.Params) == 0 {
 			pp := genIntParam(r)
+			if small {
+				pp = genSmallParam(r)
+			}
 			f.Params = append(f.Params, pp)
 			f.Words += pp.Words
 		}
-		if r.Chance(1, 10) && f.Words+3 <= budget {
+		if !small && r.Chance(1, 10) && f.Words+3 <= budget {
 			f.Params = append(f.Params, ProgParam{Kind: "...int", Lit: "1, 2", Words: 3, Unsupported: true})
 			f.Words += 3
 		}
